@@ -66,6 +66,13 @@ class IClass:
         self.nested: dict[str, IClass] = {}
         self.is_dataclass = any("dataclass" in norm(d) for d in node.decorator_list)
         self.dc_init = not any("init=False" in norm(d).replace(" ", "") for d in node.decorator_list)
+        self.bases: list[IClass] = []
+
+    def mro(self):
+        out = [self]
+        for b in self.bases:
+            out += [c for c in b.mro() if c not in out]
+        return out
 
     def __repr__(self):
         return f"<class {self.name}>"
@@ -76,20 +83,162 @@ class Obj:
         self.cls = cls
         self.attrs: dict = {}
 
+    def __copy__(self):
+        # copy.copy of an instance: a new object with the same attribute values (containers shared)
+        n = Obj(self.cls)
+        n.attrs = dict(self.attrs)
+        return n
+
     def __repr__(self):
         return f"<{self.cls.name} {self.attrs}>"
 
 
 class Func:
-    def __init__(self, node, env, interp, self_obj=None, name=None):
+    def __init__(self, node, env, interp, self_obj=None, name=None, owner=None):
         self.node, self.env, self.interp, self.self_obj = node, env, interp, self_obj
         self.name = name or getattr(node, "name", "<lambda>")
+        self.owner = owner  # the class whose body defines the method (for super())
 
     def bind(self, obj):
-        return Func(self.node, self.env, self.interp, obj, self.name)
+        return Func(self.node, self.env, self.interp, obj, self.name, self.owner)
 
     def __repr__(self):
         return f"<fn {self.name}>"
+
+
+class SymbolicBranch(AnalysisError):
+    """control flow depends on a symbolic (third-party) value: the function cannot be decided by term interpretation"""
+
+
+class Term:
+    """element of the free term algebra over third-party constructors (sqlalchemy / polars expression builders): the
+    interpreted code builds terms, the rules read them.  Equality is structural."""
+
+    __slots__ = ("fn", "args", "kwargs", "recv")
+
+    def __init__(self, fn, args=(), kwargs=None, recv=None):
+        self.fn, self.args, self.kwargs, self.recv = fn, tuple(args), dict(kwargs or {}), recv
+
+    def _key(self):
+        return (self.fn, self.args, tuple(sorted(self.kwargs.items(), key=lambda kv: kv[0])), self.recv)
+
+    def __eq__(self, o):
+        return isinstance(o, Term) and self._key() == o._key()
+
+    def __ne__(self, o):
+        return not self.__eq__(o)
+
+    def __hash__(self):
+        try:
+            return hash(self._key())
+        except TypeError:
+            return hash(self.fn)
+
+    def __bool__(self):
+        raise SymbolicBranch(f"truth value of the symbolic term {self!r}")
+
+    def __repr__(self):
+        a = [repr(x) for x in self.args] + [f"{k}={v!r}" for k, v in self.kwargs.items()]
+        head = (repr(self.recv) + "." if self.recv is not None else "") + self.fn
+        return head + ("(" + ", ".join(a) + ")" if self.fn != "var" else "")
+
+    def walk(self):
+        yield self
+        for x in list(self.args) + list(self.kwargs.values()) + ([self.recv] if self.recv is not None else []):
+            for y in _walk_terms(x):
+                yield y
+
+
+def _walk_terms(x):
+    if isinstance(x, Term):
+        yield from x.walk()
+    elif isinstance(x, SymNS) and x.recv is not None:
+        yield from _walk_terms(x.recv)
+    elif isinstance(x, (list, tuple)):
+        for y in x:
+            yield from _walk_terms(y)
+    elif isinstance(x, dict):
+        for y in x.values():
+            yield from _walk_terms(y)
+
+
+class Var(Term):
+    """a symbolic input (a compiled argument, a parameter)"""
+
+    __slots__ = ("name",)
+
+    def __init__(self, name):
+        Term.__init__(self, "var")
+        self.name = name
+
+    def _key(self):
+        return ("var", self.name)
+
+    def __repr__(self):
+        return self.name
+
+
+class SymNS:
+    """symbolic namespace / attribute path of a third-party module or of a term (`sqa.func.LAG`, `x.type`, `x.over`)"""
+
+    __slots__ = ("path", "recv")
+
+    def __init__(self, path, recv=None):
+        self.path, self.recv = path, recv
+
+    def __eq__(self, o):
+        return isinstance(o, SymNS) and (self.path, self.recv) == (o.path, o.recv)
+
+    def __hash__(self):
+        return hash((self.path, self.recv))
+
+    def __bool__(self):
+        raise SymbolicBranch(f"truth value of the symbolic attribute {self!r}")
+
+    def __repr__(self):
+        return (repr(self.recv) + "." if self.recv is not None else "") + self.path
+
+
+class _Super:
+    def __init__(self, obj, cls):
+        self.obj, self.cls = obj, cls
+
+
+_GEN_CACHE: dict = {}
+
+
+def _is_generator(fn) -> bool:
+    k = id(fn)
+    if k not in _GEN_CACHE:
+        found = False
+        stack = list(fn.body)
+        while stack:
+            n = stack.pop()
+            if isinstance(n, (ast.Yield, ast.YieldFrom)):
+                found = True
+                break
+            if isinstance(n, (ast.FunctionDef, ast.Lambda, ast.ClassDef)):
+                continue
+            stack.extend(ast.iter_child_nodes(n))
+        _GEN_CACHE[k] = found
+    return _GEN_CACHE[k]
+
+
+class Native:
+    """a Python callable made available to the interpreted code (stubs of library helpers, recording callbacks)"""
+
+    def __init__(self, fn, name="native"):
+        self.fn, self.name = fn, name
+
+    def __repr__(self):
+        return f"<native {self.name}>"
+
+
+class Partial:
+    """functools.partial over an interpreted callable"""
+
+    def __init__(self, fn, args, kwargs):
+        self.fn, self.args, self.kwargs = fn, list(args), dict(kwargs)
 
 
 class NoOp:
@@ -156,6 +305,7 @@ class Interp(Folder):
     def __init__(self, module: Module, env: dict, memo_funcs=()):
         super().__init__(module, env)
         self.memo_funcs = set(memo_funcs)
+        self.import_hook = None  # (import statement, alias) -> value, for imports inside interpreted functions
         self.global_resolver = None  # name -> value (raises KeyError), consulted for names missing from the environment
         self.memo: dict = {}
         self.memo_enabled = True
@@ -178,9 +328,28 @@ class Interp(Folder):
             if isinstance(st, ast.AnnAssign) and isinstance(st.target, ast.Name):
                 c.fields.append((st.target.id, st.value))
             elif isinstance(st, ast.FunctionDef):
-                c.methods[st.name] = Func(st, env, self, name=f"{node.name}.{st.name}")
+                c.methods[st.name] = Func(st, env, self, name=f"{node.name}.{st.name}", owner=c)
             elif isinstance(st, ast.ClassDef):
                 c.nested[st.name] = self.make_class(st, env)
+        # single / multiple inheritance from classes of the interpreted program (resolved by name): methods and fields that
+        # the class does not define itself come from its bases
+        for b in node.bases:
+            if not isinstance(b, ast.Name):
+                continue
+            base = env.get(b.id) if b.id in env else None
+            if base is None and self.global_resolver is not None and b.id != node.name:
+                try:
+                    base = self.global_resolver(b.id)
+                except KeyError:
+                    base = None
+            if isinstance(base, IClass):
+                c.bases.append(base)
+                for k, f in base.methods.items():
+                    c.methods.setdefault(k, Func(f.node, f.env, f.interp, None, f.name, f.owner))
+                if base.is_dataclass:  # dataclass fields are collected from dataclass bases only
+                    own = {n for n, _ in c.fields}
+                    c.fields = [(n, d) for n, d in base.fields if n not in own] + c.fields
+                    c.is_dataclass = True
         return c
 
     def instantiate(self, c: IClass, args, kwargs, node):
@@ -217,6 +386,8 @@ class Interp(Folder):
                         self.err(default, "dataclass field without default")
                 else:
                     o.attrs[n] = self.ev(default, denv)
+        if "__post_init__" in c.methods:
+            self.call(c.methods["__post_init__"].bind(o), [], {}, node, None)
         return o
 
     # ---- iteration ---------------------------------------------------------------------------------------
@@ -268,6 +439,20 @@ class Interp(Folder):
     def ev_Attribute(self, e, env):
         v = self.ev(e.value, env)
         a = e.attr
+        if isinstance(v, _Super):
+            mro = v.obj.cls.mro()
+            after = mro[mro.index(v.cls) + 1:] if v.cls in mro else []
+            for c in after:
+                m = c.node and next((st for st in c.node.body if isinstance(st, ast.FunctionDef) and st.name == a), None)
+                if m is not None:
+                    return Func(m, c.env, c.interp, v.obj, f"{c.name}.{a}", c)
+            if a == "__init__":
+                return NoOp("object.__init__")
+            raise PyRaise("AttributeError", f"super().{a}", e)
+        if isinstance(v, SymNS):
+            return SymNS(a, v) if v.recv is not None else SymNS(f"{v.path}.{a}")
+        if isinstance(v, Term):
+            return SymNS(a, v)
         if isinstance(v, Obj):
             if a in v.attrs:
                 return v.attrs[a]
@@ -336,6 +521,8 @@ class Interp(Folder):
             hi = self.ev(e.slice.upper, env) if e.slice.upper else None
             return _py(lambda: v[lo:hi])
         k = self.ev(e.slice, env)
+        if isinstance(v, (Term, SymNS)):
+            return Term("getitem", (v, k))
         if isinstance(v, Obj) and "__getitem__" in v.cls.methods:
             return self.call(v.cls.methods["__getitem__"].bind(v), [k], {}, e, env)
         return _py(lambda: v[k])
@@ -366,6 +553,10 @@ class Interp(Folder):
         left = self.ev(e.left, env)
         for op, r in zip(e.ops, e.comparators):
             right = self.ev(r, env)
+            if (isinstance(left, (Term, SymNS)) or isinstance(right, (Term, SymNS))) and not isinstance(op, (ast.Is, ast.IsNot, ast.In, ast.NotIn)):
+                if len(e.ops) != 1:
+                    self.err(e, "chained comparison of symbolic values")
+                return Term("op:" + type(op).__name__, (left, right))
             if isinstance(op, (ast.Is, ast.IsNot, ast.Eq, ast.NotEq)) and (
                 (isinstance(left, tuple) and left[:1] == ("type-of",)) or (isinstance(right, tuple) and right[:1] == ("type-of",))
             ):
@@ -403,8 +594,26 @@ class Interp(Folder):
             left = right
         return True
 
+    def ev_UnaryOp(self, e, env):
+        v = self.ev(e.operand, env)
+        if isinstance(v, (Term, SymNS)):
+            if isinstance(e.op, ast.Not):
+                raise SymbolicBranch(f"`not` of the symbolic value {v!r}")
+            return Term("op:" + type(e.op).__name__, (v,))
+        if isinstance(e.op, ast.Not):
+            return not v
+        if isinstance(e.op, ast.USub):
+            return _py(lambda: -v)
+        if isinstance(e.op, ast.UAdd):
+            return v
+        if isinstance(e.op, ast.Invert):
+            return _py(lambda: ~v)
+        self.err(e)
+
     def ev_BinOp(self, e, env):
         a, b = self.ev(e.left, env), self.ev(e.right, env)
+        if isinstance(a, (Term, SymNS)) or isinstance(b, (Term, SymNS)):
+            return Term("op:" + type(e.op).__name__, (a, b))
         if isinstance(e.op, ast.BitOr) and (isinstance(a, (TypeCtor, IClass, type)) or (isinstance(a, tuple) and a[:1] == ("union",)) or a is None):
             return ("union", a, b)
         if isinstance(e.op, ast.RShift) and isinstance(b, tuple) and b[:1] == ("pipe",):
@@ -435,8 +644,14 @@ class Interp(Folder):
             return any(self._isinstance(v, s, node) for s in spec)
         if isinstance(spec, TypeCtor):
             return isinstance(v, DT) and (spec.cls == "Dtype" or v.isinstance(spec.cls))
+        if isinstance(spec, SymNS):
+            # a class of a third-party library: stub objects and python values are never instances; for a symbolic value the
+            # answer is unknown
+            if isinstance(v, (Term, SymNS)):
+                raise SymbolicBranch(f"isinstance({v!r}, {spec!r})")
+            return False
         if isinstance(spec, IClass):
-            return isinstance(v, Obj) and v.cls is spec
+            return isinstance(v, Obj) and spec in v.cls.mro()
         if isinstance(spec, type):
             return isinstance(v, spec) and not isinstance(v, (DT, Obj))
         if spec is None:
@@ -450,8 +665,10 @@ class Interp(Folder):
             if len(e.args) != 2:
                 self.err(e)
             return self._isinstance(self.ev(e.args[0], env), self.ev(e.args[1], env), e)
-        if isinstance(e.func, ast.Name) and e.func.id == "super":
-            self.err(e, "super()")
+        if isinstance(e.func, ast.Name) and e.func.id == "super" and not e.args:
+            if "__class__" not in env or env["__self__"] is None:
+                self.err(e, "super() outside a method")
+            return _Super(env["__self__"], env["__class__"])
         f = self.ev(e.func, env)
         if isinstance(f, NoOp):
             return None  # argument validation helpers of the public wrappers: their arguments are not evaluated either
@@ -465,6 +682,14 @@ class Interp(Folder):
         return self.call(f, args, kwargs, e, env)
 
     def call(self, f, args, kwargs, node, env):
+        if isinstance(f, SymNS):
+            return Term(f.path, args, kwargs, f.recv)
+        if isinstance(f, Native):
+            return f.fn(*args, **kwargs)
+        if isinstance(f, Partial):
+            return self.call(f.fn, f.args + list(args), {**f.kwargs, **kwargs}, node, env)
+        if f is functools.partial:
+            return Partial(args[0], args[1:], kwargs)
         if isinstance(f, Func):
             return self.call_func(f, args, kwargs, node)
         if isinstance(f, IClass):
@@ -521,8 +746,10 @@ class Interp(Folder):
             f.__self__, (dict, list, set, str, tuple, DT, type({}.keys()))
         ):
             return _py(lambda: f(*args, **kwargs))
-        if callable(f) and getattr(f, "__module__", None) in ("operator", "_operator", "copy"):
+        if callable(f) and getattr(f, "__module__", None) in ("operator", "_operator", "copy", "re"):
             return _py(lambda: f(*args, **kwargs))
+        if callable(f) and getattr(f, "__module__", None) == "itertools":
+            return _py(lambda: list(f(*[self.iterate(a_) for a_ in args])))
         self.err(node, f"call of unsupported function {f!r}")
 
     @staticmethod
@@ -603,10 +830,26 @@ class Interp(Folder):
             raise PyRaise("TypeError", f"unexpected keywords {sorted(kwargs)} for {f.name}", node)
         if isinstance(fn, ast.Lambda):
             return self.ev(fn.body, env)
+        if f.owner is not None:
+            local["__class__"] = f.owner
+            local["__self__"] = local.get(params[0]) if params else None
+        gen = _is_generator(fn)
+        if gen:
+            # a generator function is run to completion and its values are collected (the interpreted code never depends on
+            # the interleaving of a generator with its consumer)
+            local["__yield__"] = []
         try:
             self.exec_block(fn.body, env)
         except _Ret as r:
-            return r.v
+            return local["__yield__"] if gen else r.v
+        return local["__yield__"] if gen else None
+
+    def ev_Yield(self, e, env):
+        env["__yield__"].append(self.ev(e.value, env) if e.value is not None else None)
+        return None
+
+    def ev_YieldFrom(self, e, env):
+        env["__yield__"].extend(self.iterate(self.ev(e.value, env)))
         return None
 
     # ---- statements ----------------------------------------------------------------------------------------
@@ -705,6 +948,11 @@ class Interp(Folder):
             return
         if isinstance(st, (ast.FunctionDef,)):
             env[st.name] = Func(st, env, self)
+            return
+        if isinstance(st, (ast.Import, ast.ImportFrom)) and self.import_hook is not None:
+            for a in st.names:
+                nm = a.asname or a.name.split(".")[0]
+                env[nm] = self.import_hook(st, a)
             return
         if isinstance(st, ast.If):
             self.exec_block(st.body if self.ev(st.test, env) else st.orelse, env)
